@@ -78,6 +78,45 @@ theorem mem_fuzzy_entriesIterFor {s : State} {q : Key} {p : Phrase} :
   · rintro ⟨key, hm, h⟩
     exact ⟨key, hm, mem_entries.mpr h⟩
 
+/-- selecting the entries of a trie file by a predicate on the key = selecting its leaves -/
+theorem trie_entries_of_pred (t : List Leaf) (P : Key → Bool) :
+    ((Trie.entries t).filter (fun e => P e.1)).map (·.2) = ((t.filter (fun l => P l.1)).map (·.2)).flatten := by
+  induction t with
+  | nil => rfl
+  | cons x r ih =>
+    have hx : ∀ ps : List Phrase, ((ps.map (fun p => (x.1, p))).filter (fun e : Entry => P e.1)).map (·.2)
+        = if P x.1 = true then ps else [] := by
+      intro ps
+      induction ps with
+      | nil => simp
+      | cons p ps ihp =>
+        by_cases hb : P x.1 = true
+        · simp only [hb, if_true] at ihp ⊢
+          simp only [List.map_cons, List.filter_cons, hb, if_true, ihp]
+        · have hb' : P x.1 = false := by simpa using hb
+          simp only [hb', Bool.false_eq_true, if_false] at ihp ⊢
+          simp only [List.map_cons, List.filter_cons, hb', Bool.false_eq_true, if_false, ihp]
+    unfold Trie.entries at ih ⊢
+    simp only [List.flatMap_cons, List.filter_append, List.map_append, hx, ih]
+    by_cases hb : P x.1 = true
+    · simp only [hb, if_true, List.filter_cons, List.map_cons, List.flatten_cons]
+    · have hb' : P x.1 = false := by simpa using hb
+      simp only [hb', Bool.false_eq_true, if_false, List.filter_cons, List.nil_append]
+
+/-- the persisted candidates of a prefix lookup are what `Trie::lookup_all_phrases` returns for that
+    strategy: with nothing pending and no tombstone the repaired code answers as the code before the fix -/
+theorem trie_entries_fuzzy (t : List Leaf) (q : Key) :
+    ((Trie.entries t).filter (fun e => fuzzyMatch e.1 q)).map (·.2) = Trie.lookupAll t q .fuzzyPartialPrefix :=
+  trie_entries_of_pred t (fun k => fuzzyMatch k q)
+
+/-- both strategies in one formula: the candidates of a lookup are the phrases of the enumerated entries
+    whose key matches the query under the strategy's predicate (`==` / per-syllable prefix) -/
+theorem entriesIterFor_uniform (s : State) (k : Key) (st : Strategy) :
+    entriesIterFor s k st = ((entries s).filter (fun e => keyMatch st e.1 k)).map (·.2) := by
+  cases st with
+  | standard => exact (entries_of_key s k).symm
+  | fuzzyPartialPrefix => rfl
+
 /-- **prefix lookup**, in every state, for every query: one entry per phrase text that is live under some
     matching key, carrying the value of one such key and the highest frequency among them -/
 theorem fuzzy_agrees {s : State} (hs : Inv s) (q : Key) :
